@@ -36,7 +36,7 @@ import (
 )
 
 type c16Op struct {
-	Kind     string `json:"kind"` // raw frame ping settings ack open prioopen openreset rst wu cont data prio pupd goaway
+	Kind     string `json:"kind"` // raw frame ping settings ack open prioopen openreset rst wu cont data prio pupd trailers goaway
 	N        int    `json:"n,omitempty"`
 	K        int    `json:"k,omitempty"`
 	V        uint32 `json:"v,omitempty"`
@@ -59,6 +59,7 @@ type c16Case struct {
 	MaxStreams uint32  `json:"max_streams"`
 	MaxFrame   uint32  `json:"max_frame"` // server MaxReadFrameSize (0 = default)
 	ReadBuf    int     `json:"read_buf"`
+	MaxHdr     int     `json:"max_hdr,omitempty"` // http.Server.MaxHeaderBytes (0 = default): small values put header lists over the limit
 	Ops        []c16Op `json:"ops"`
 	Cut        int     `json:"cut"` // -1, or permille of the last write after which the client closes
 }
@@ -184,6 +185,7 @@ func c16Gen(t *rapid.T) c16Case {
 	c.MaxStreams = rapid.SampledFrom([]uint32{1, 2, 5}).Draw(t, "max")
 	c.MaxFrame = rapid.SampledFrom([]uint32{0, 16384}).Draw(t, "maxframe")
 	c.ReadBuf = rapid.SampledFrom([]int{0, 0, 16, 256, 4096}).Draw(t, "readbuf")
+	c.MaxHdr = rapid.SampledFrom([]int{0, 0, 1024, 4096}).Draw(t, "maxhdr")
 	// client reading habit: 0 reads after every write, 1 mixed, 2 never before the end
 	habit := rapid.SampledFrom([]int{0, 1, 1, 2, 2}).Draw(t, "habit")
 	mode := rapid.SampledFrom([]int{0, 1, 1, 1, 1, 2, 2}).Draw(t, "mode") // 0 raw, 1 mutated session, 2 floods
@@ -204,7 +206,7 @@ func c16Gen(t *rapid.T) c16Case {
 	switch mode {
 	case 1:
 		kinds = []string{"frame", "frame", "raw", "ping", "settings", "ack", "open", "open", "open", "open", "open", "open", "openreset",
-			"rst", "rst", "rst", "wu", "wu", "wu", "cont", "data", "data", "prio", "prio", "prioopen", "prioopen", "pupd", "pupd", "goaway"}
+			"rst", "rst", "rst", "wu", "wu", "wu", "cont", "data", "data", "prio", "prio", "prioopen", "prioopen", "pupd", "pupd", "trailers", "trailers", "goaway"}
 	case 2:
 		kinds = []string{"ping", "ping", "settings", "settings", "ack", "open", "open", "openreset", "openreset", "rst", "rst", "wu", "wu", "cont", "cont", "data", "prio", "prioopen", "frame"}
 	}
@@ -247,6 +249,11 @@ func c16Gen(t *rapid.T) c16Case {
 			if rapid.IntRange(0, 1).Draw(t, "hasPrio") == 0 {
 				o.Prio = rapid.SampledFrom(c16Prios).Draw(t, "prio")
 			}
+		case "trailers": // HEADERS with END_STREAM on a stream that is (probably) open: request trailers
+			o.N = rapid.IntRange(1, 2).Draw(t, "n")
+			o.K = k.Draw(t, "k")
+			o.V = uint32(rapid.IntRange(0, 4).Draw(t, "variant"))
+			o.End = rapid.IntRange(0, 5).Draw(t, "end") != 0
 		case "pupd": // PRIORITY_UPDATE (RFC 9218) for open streams or for the streams opened next
 			o.N = rapid.IntRange(1, 3).Draw(t, "n")
 			o.K = rapid.OneOf(rapid.IntRange(0, 60), rapid.Just(-1)).Draw(t, "k")
@@ -388,7 +395,7 @@ func c16Run(c c16Case, r *vp.Rec) (err error) {
 	if maxStreams == 0 {
 		maxStreams = 2
 	}
-	s := vpNewSrv(vpSrvOpts{Sched: c.Sched, MaxStreams: maxStreams, MaxReadFrame: c.MaxFrame, ReadBuf: c.ReadBuf}, h)
+	s := vpNewSrv(vpSrvOpts{Sched: c.Sched, MaxStreams: maxStreams, MaxReadFrame: c.MaxFrame, ReadBuf: c.ReadBuf, MaxHeaderBytes: c.MaxHdr}, h)
 	closed := false
 	finish := func() error {
 		// The client closes; ServeConn must return within bounded (fake) time. Time in
@@ -575,6 +582,21 @@ func c16Run(c c16Case, r *vp.Rec) (err error) {
 			}
 			for i := 0; i < n; i++ {
 				b = c16Frame(b, c16TypeHeaders, fl, newID(), blk, 0)
+			}
+		case "trailers":
+			blk := [][]byte{
+				c16Block("x-trailer", "v"),
+				c16Block("x-trailer", "v", "x-other", string(make([]byte, 100))),
+				c16Block(":path", "/late"),           // pseudo-header in trailers
+				c16Block("X-Upper", "v"),             // invalid name
+				c16Block("content-length", "5", "te", "trailers", "connection", "close"),
+			}[o.V%5]
+			fl := uint8(c16EndHeaders)
+			if o.End {
+				fl |= c16EndStream // trailers without END_STREAM are a protocol error
+			}
+			for i := 0; i < n; i++ {
+				b = c16Frame(b, c16TypeHeaders, fl, sel(c16Add(o.K, i)), blk, 0)
 			}
 		case "pupd":
 			for i := 0; i < n; i++ {
